@@ -80,7 +80,8 @@ if res.get('confirmed'):
                     detected.append('%s %s: %s' % (cid, tier, '; '.join('%s/%s' % l for l in labels[:4])))
                     break
                 if rc == 2:
-                    ran.append('   inconclusive: ' + (lines[0][:300] if lines else ''))
+                    for l in lines[:4]:
+                        ran.append('   inconclusive: ' + l[:300])
             if detected:
                 break
     finally:
